@@ -13,7 +13,11 @@ package index
 // node kept in the per-shard cache of metadata match trees. Match-tree nodes
 // carry cursors (docID, firstDone, current candidates) that evaluation
 // mutates; a node shared between two searches would make one search's result
-// depend on the other.
+// depend on the other. "Built for that search" also means not yet shared: an
+// object the constructor has stored into memory it did not allocate, put in a
+// map, or handed to another function (the cache's Add) is not returned.
+// A copy taken from a cached node starts with its own cursor at the beginning
+// (docID 0, firstDone false), whatever state the cached node is in.
 //@ func index.(*indexData).newMatchTree
 //@   returns_fresh
 //@ func index.(*indexData).regexpToMatchTreeRecursive
@@ -24,6 +28,11 @@ package index
 //@   returns_fresh
 //@ func index.(*docMatchTree).fresh
 //@   returns_fresh
+//@   requires t != nil
+//@   ensures result != nil && fresh(result) && result != t
+//@   ensures result.docID == 0 && !result.firstDone
+//@   ensures result.numDocs == t.numDocs && result.reason == t.reason
+//@   assigns nothing
 
 // Nothing a search (or a list) can reach writes the loaded shard: no store and
 // no map update whose target is reached through the *indexData - its tables,
